@@ -73,20 +73,17 @@ func (v *ScriptView) GenerateDatabaseScriptCreate(tableMap map[string]*sysl.Type
 	sort.Ints(depthsFound)
 	for _, depth := range depthsFound {
 		tableNames := completedTableDepthMap[depth]
-		var lineNumbers []int32
-		var entityNames []string
-		lineNumberMap := map[int32]string{}
-		for _, tableName := range tableNames {
-			table := tableMap[tableName]
-			lineNumber := table.GetSourceContext().GetStart().GetLine() //nolint:staticcheck
-			lineNumberMap[lineNumber] = tableName
-			lineNumbers = append(lineNumbers, lineNumber)
-		}
-		sort.Slice(lineNumbers, func(i, j int) bool { return lineNumbers[i] < lineNumbers[j] })
-		for _, lineNo := range lineNumbers {
-			entityName := lineNumberMap[lineNo]
-			entityNames = append(entityNames, entityName)
-		}
+		// Order the tables of one depth by source line, then by name. Line numbers alone are not unique keys: tables
+		// from different files can start on the same line.
+		entityNames := append([]string(nil), tableNames...)
+		sort.Slice(entityNames, func(i, j int) bool {
+			lineI := tableMap[entityNames[i]].GetSourceContext().GetStart().GetLine() //nolint:staticcheck
+			lineJ := tableMap[entityNames[j]].GetSourceContext().GetStart().GetLine() //nolint:staticcheck
+			if lineI != lineJ {
+				return lineI < lineJ
+			}
+			return entityNames[i] < entityNames[j]
+		})
 		for _, entityName := range entityNames {
 			entityType := tableMap[entityName]
 			if relEntity := entityType.GetRelation(); relEntity != nil {
